@@ -1,10 +1,19 @@
 /-
 C15 — results do not depend on how the input byte stream is split across calls.
-This file: the chunk deserializer part (Thm P).  Model: Rml/Model/Deserializer.lean; `feed` is one
+This file: the chunk deserializer part (Thm P), and at the end the session part: what both sessions
+do with their input after the acknowledgement accounting (`drain`) is the same for `xs ++ ys` in one
+call as for `xs`, then `ys` — same messages handled in the same order from the same states, same error
+at the same message, same final state (`C15_server_session`, `C15_client_session`; proofs in
+Lemmas/SrvPart.lean, CliPart.lean via `get_next_message` monotonicity and buffer-parametricity of
+`handleMessage`).  What is NOT partition independent, by design or by defect: the acknowledgement packets
+(a function of the call sizes, C17) and — known finding K2b — the results of an earlier piece when a
+later piece fails (the two-call caller already holds them, the one-call caller gets only the error).  Model: Rml/Model/Deserializer.lean; `feed` is one
 input call as a consumer makes it (get_next_message(bytes), then get_next_message(&[]) until None,
 honouring every decoded chunk-size change, which is what both sessions do).
 -/
 import Rml.Lemmas.DesRun
+import Rml.Lemmas.SrvPart
+import Rml.Lemmas.CliPart
 namespace Rml.C15
 open Rml Rml.Chunk Rml.Des
 
@@ -117,5 +126,47 @@ theorem C15_des (s : State) (c1 : Bytes) (r1 : List Bytes) (c2 : Bytes) (r2 : Li
     real error (also the "never loops without consuming input" half of C03 for this entry point) -/
 theorem C15_des_no_fuel (s : State) (bytes : Bytes) : (feed s bytes).err ≠ some .fuel :=
   runFuel_no_fuel_err _ _ _ _ (mu_lt_fuelFor _ _)
+
+/-- **C15, server session.**  For EVERY state, EVERY `xs`, `ys`: draining `xs ++ ys` in one call equals
+    draining `xs` and then `ys`. -/
+theorem C15_server_session (s : Srv.State) (now : Nat) (xs ys : Bytes) :
+    SrvPart.drain s now (xs ++ ys) =
+      match SrvPart.drain s now xs with
+      | (s1, .ok r1) => SrvPart.mapOk r1 (SrvPart.drain s1 now ys)
+      | (s1, .error e) => (BufS.withBuf s1 (s1.des.buf ++ ys), .error e) :=
+  SrvPart.drain_two s now xs ys
+
+/-- `drain` is `handle_input` whenever no acknowledgement is due in the call -/
+theorem C15_server_input_is_drain (s : Srv.State) (now : Nat) (bytes : Bytes)
+    (h : (Sess.ackStep s.window s.since bytes.length).2 = none) :
+    Srv.handleInput s now bytes =
+      SrvPart.drain { s with since := (Sess.ackStep s.window s.since bytes.length).1 } now bytes := by
+  unfold Srv.handleInput SrvPart.drain
+  cases ha : Sess.ackStep s.window s.since bytes.length with
+  | mk since ack =>
+    rw [ha] at h
+    simp only at h
+    subst h
+    rfl
+
+/-- **C15, client session.** -/
+theorem C15_client_session (s : Cli.State) (now : Nat) (xs ys : Bytes) :
+    CliPart.drain s now (xs ++ ys) =
+      match CliPart.drain s now xs with
+      | (s1, .ok r1) => CliPart.mapOk r1 (CliPart.drain s1 now ys)
+      | (s1, .error e) => (BufC.withBuf s1 (s1.des.buf ++ ys), .error e) :=
+  CliPart.drain_two s now xs ys
+
+theorem C15_client_input_is_drain (s : Cli.State) (now : Nat) (bytes : Bytes)
+    (h : (Sess.ackStep s.window s.since bytes.length).2 = none) :
+    Cli.handleInput s now bytes =
+      CliPart.drain { s with since := (Sess.ackStep s.window s.since bytes.length).1 } now bytes := by
+  unfold Cli.handleInput CliPart.drain
+  cases ha : Sess.ackStep s.window s.since bytes.length with
+  | mk since ack =>
+    rw [ha] at h
+    simp only at h
+    subst h
+    rfl
 
 end Rml.C15
